@@ -165,10 +165,16 @@ Pre(s, op, a) ==
     \* C14: reading a derived property (an observation; the value is compared with a freshly built stream)
     [] op = "read" -> a.x \in Names /\ ~Empty(t[a.x])
     \* property-package change: the flows are carried over chemical by chemical
+    \* C11: mass / volumetric views, totals and unit conversions (observations carry the relative deviation, in 1e-12,
+    \* from mol x MW, mol x molar volume at the CURRENT phase/T/P, sums of those, or mol x the fixed unit factor)
+    [] op \in {"vget", "tget", "uget"} -> a.x \in Names /\ (op # "tget" => a.p \in Range(t[a.x].ph) /\ a.c \in PkgChems[t[a.x].pkg])
+    [] op \in {"vset", "uset"} -> a.x \in Names /\ a.p \in Range(t[a.x].ph) /\ a.c \in PkgChems[t[a.x].pkg] /\ a.v >= 0
+    [] op = "tset" -> a.x \in Names /\ ~Empty(t[a.x]) /\ \A i \in DOMAIN t[a.x].ph : ScalesExactly(t[a.x].fl[t[a.x].ph[i]], a.q) /\ a.q[1] > 0
+    [] op = "ubad" -> a.x \in Names
     [] op = "reset_thermo" -> a.x \in Names /\ a.pkg \in Pkgs /\ Alone(t, a.x) /\ \A c \in 1..NC : Tot(t[a.x])[c] # 0 => c \in PkgChems[a.pkg]
     [] OTHER -> FALSE
 
-Exc(s, op, a) == None
+Exc(s, op, a) == IF op = "ubad" THEN "DimensionError" ELSE None
 
 Post(s, op, a) ==
   LET t == s.st IN
@@ -207,6 +213,9 @@ Post(s, op, a) ==
     [] op = "view_read" -> s
     [] op = "read" -> s
     [] op = "reset_thermo" -> [s EXCEPT !.st[a.x].pkg = a.pkg]
+    [] op \in {"vget", "tget", "uget", "ubad"} -> s
+    [] op \in {"vset", "uset"} -> [s EXCEPT !.st = PutFlow(t, a.x, [t[a.x].fl EXCEPT ![a.p][a.c] = a.v])]
+    [] op = "tset" -> [s EXCEPT !.st = PutFlow(t, a.x, FlOf(Range(t[a.x].ph), LAMBDA p : Scaled(t[a.x].fl[p], a.q)))]
     [] op = "set_T" -> [s EXCEPT !.st = PutTP(t, a.x, a.T, t[a.x].P)]
     [] op = "view_set_T" -> [s EXCEPT !.st = PutTP(t, a.x, a.T, t[a.x].P)]
     [] op = "set_P" -> [s EXCEPT !.st = PutTP(t, a.x, t[a.x].T, a.P)]
@@ -304,7 +313,7 @@ Judge(s, e) ==
       op == e.op
       p == Post(s, op, a)
   IN
-  IF e.obs.exc # None THEN "exception"
+  IF e.obs.exc # Exc(s, e.op, e.a) THEN "exception"
   ELSE IF ~Legal(e.post) THEN "post.illformed"
   ELSE IF e.post.sv # p.sv THEN "post.saved"
   ELSE IF op = "mix_from" THEN
@@ -347,6 +356,10 @@ Judge(s, e) ==
        ELSE IF ~FrameOK(s, e, {a.d}) THEN "frame"
        ELSE IF ~e.obs.behaves THEN "sharing.behaviour"
        ELSE "ok"
+  ELSE IF op \in {"vget", "tget", "uget"} THEN
+       IF e.obs.diff > ReadTol THEN "view.value" ELSE IF u # t THEN "frame" ELSE "ok"
+  ELSE IF op = "ubad" THEN
+       IF u # t THEN "frame" ELSE "ok"
   ELSE IF op = "read" THEN
        \* diff: |value - value on a fresh stream with the same flows, phases, T, P| relative, in units of 1e-12
        IF e.obs.diff > ReadTol THEN "property.stale"
